@@ -33,9 +33,8 @@ THEOREMS = [
     # Props/C03Control.lean: what the cleaning pass deletes is never produced raw by the safe unquoters
     "Ural.Props.C03.unquoters_emit_no_cleaned_character",
     "Ural.Props.C03.canonical_form_has_no_cleaned_character",
-    "Ural.Props.C03.clean_canonical_partial",
+    "Ural.Props.C03.clean_canonical",
     "Ural.Props.C03.normalize_cleaning_canonical_partial",
-    "Ural.Props.C03.not_fullCleanCanonical",
 ]
 TABLE_OBLIGATIONS = [
     "Ural.Props.C03.tables_unsafe_sets",
